@@ -48,6 +48,43 @@ def make_valid(task):
     return pred
 
 
+@st.composite
+def separation_valid_case(draw):
+    """Valid separation input: every source is non-silent over the whole signal; a source may pause inside one analysis window."""
+    c = {"seed": draw(st.integers(0, 10 ** 6)), "nsrc": draw(st.sampled_from([2, 2, 3])), "win": draw(st.sampled_from([300, 400])),
+         "nwin": draw(st.integers(2, 3)), "hop_div": draw(st.sampled_from([1, 1, 2])),
+         "pause": draw(st.sampled_from(["none", "ref", "ref", "est", "est", "all_ref"])), "images": draw(st.booleans())}
+    c["pause_src"] = draw(st.integers(0, c["nsrc"] - 1))
+    c["pause_win"] = draw(st.integers(0, c["nwin"] - 1))
+    return c
+
+
+def pred_valid_separation(case, ctx):
+    rs = np.random.RandomState(case["seed"])
+    nsrc, w, nwin = case["nsrc"], case["win"], case["nwin"]
+    n = w * nwin
+    ref = rs.randn(nsrc, n)
+    est = ref[::-1] * 0.8 + 0.3 * rs.randn(nsrc, n)
+    lo, hi = case["pause_win"] * w, (case["pause_win"] + 1) * w
+    if case["pause"] == "ref":
+        ref[case["pause_src"], lo:hi] = 0.0
+    elif case["pause"] == "est":
+        est[case["pause_src"], lo:hi] = 0.0
+    elif case["pause"] == "all_ref":
+        ref[:, lo:hi] = 0.0
+    hop = w // case["hop_div"]
+    if case["images"]:
+        out = ctx.call(separation.bss_eval_images_framewise, ref, est, window=w, hop=hop)
+    else:
+        out = ctx.call(separation.bss_eval_sources_framewise, ref, est, window=w, hop=hop)
+    want_win = (n - w) // hop + 1       # complete windows of the documented framing
+    for o in out[:-1]:
+        if np.asarray(o).shape != (nsrc, want_win):
+            raise Violation("framewise result has shape %r for %d sources and %d windows; case %r" % (np.asarray(o).shape, nsrc, want_win, case))
+    ctx.event("pause:" + case["pause"])
+    return case["pause"] in ("ref", "est")
+
+
 def enum_valid_keys(tier, shard, nshards):
     from checks.c04 import all_keys
     ks = all_keys() + ["Fb minor", "C# major", "c# MAJOR".lower().replace("major", "major")]
@@ -483,6 +520,9 @@ NV = {"beat": (500, 12000), "onset": (400, 8000), "segment": (400, 10000), "chor
       "pattern": (400, 8000), "alignment": (300, 6000)}
 SUBPROPS = [SubProp("valid:" + t, make_valid(t), strategy=R.STRATEGIES[t], n=NV[t], shards=(2 if t in ("segment", "hierarchy", "beat") else 1, 8), floor=0.1,
                     rule="valid inputs of mir_eval.%s through evaluate() and every metric function; NT = named coincidence/degenerate class" % t) for t in R.TASKS]
+SUBPROPS.append(SubProp("valid:separation_framewise", pred_valid_separation, strategy=separation_valid_case, n=(30, 400), shards=(8, 16), floor=0.2,
+                        rule="2-3 Gaussian sources, 2-3 analysis windows, one source pausing (exact zeros) inside one window of the reference or the estimate "
+                             "while being non-silent overall; NT = a partially silent window"))
 SUBPROPS.append(SubProp("valid:key_strings", pred_valid_key, enum=enum_valid_keys, shards=(1, 1), exhaustive=True,
                         rule="every key string of the documented form, incl. the module docstring's own example"))
 def make_fault_enum(task):
